@@ -571,7 +571,9 @@ unsafe fn do_spawn<F: PreExec>(
                 }
 
                 let errno = i32::from_be_bytes(errno.try_into().unwrap_unchecked());
-                process.wait()?;
+                // The failed step's error is the one to report, whatever reaping the child says
+                // (with `SIGCHLD` ignored there's nothing to wait for: `ECHILD`)
+                let _ = process.wait();
                 if errno == 0 {
                     return Err(Error::no_code(
                         "A step before exec failed in the spawned process",
@@ -581,12 +583,12 @@ unsafe fn do_spawn<F: PreExec>(
             }
             Err(ref e) if matches!(e.code, Some(Errno::EINTR)) => {}
             Err(_) => {
-                process.wait()?;
+                let _ = process.wait();
                 return Err(Error::no_code("The cloexec pipe failed"));
             }
             Ok(..) => {
                 // pipe I/O up to PIPE_BUF bytes should be atomic
-                process.wait()?;
+                let _ = process.wait();
                 return Err(Error::no_code("Short read on the CLOEXEC pipe"));
             }
         }
